@@ -1,13 +1,16 @@
 package props
 
 import (
+	"bufio"
 	"bytes"
+	"encoding/binary"
 	"fmt"
 	"io"
 	"os"
 	"path/filepath"
 	"strings"
 	"testing"
+	"unicode/utf16"
 
 	astisub "github.com/asticode/go-astisub"
 	"pgregory.net/rapid"
@@ -170,6 +173,21 @@ func readCanon(format string, r io.Reader, o readOpts) (out string) {
 
 func checkC17(c c17Case) string {
 	ref := readCanon(c.Format, c.reader(nil, false), c.Opts)
+	// the readers of the standard library that know their size or can seek are deliveries like any other
+	std := map[string]io.Reader{"bytes.Buffer": bytes.NewBuffer(append([]byte(nil), c.Doc...)), "bufio.Reader": bufio.NewReader(bytes.NewReader(c.Doc))}
+	if c.Seekable {
+		std = map[string]io.Reader{"bytes.Reader": bytes.NewReader(c.Doc), "strings.Reader": strings.NewReader(string(c.Doc))}
+	} else if c.Format == "ts" {
+		// the third-party demultiplexer peeks into a *bufio.Reader where it consumes from any other reader that cannot
+		// rewind: what such readers yield is its business, not a matter of delivery
+		delete(std, "bufio.Reader")
+	}
+	for name, r := range std {
+		if got := readCanon(c.Format, r, c.Opts); got != ref {
+			return fmt.Sprintf("%s document of %d bytes: the result read from a %s differs from the result read from a plain io.Reader delivering everything at once\n--- plain reader ---\n%s\n--- %s ---\n%s",
+				c.Format, len(c.Doc), name, clip(ref, 700), name, clip(got, 700))
+		}
+	}
 	got := readCanon(c.Format, c.reader(c.Chunks, c.WithEOF), c.Opts)
 	if ref != got {
 		return fmt.Sprintf("%s document of %d bytes: result under delivery schedule %v (data together with EOF: %v, seekable: %v) differs from the all-at-once result\n--- all at once ---\n%s\n--- scheduled ---\n%s",
@@ -249,6 +267,31 @@ func TestC17(t *testing.T) {
 			if len(docs) > 0 {
 				d := docs[len(docs)-1]
 				docs = append(docs, d[:len(d)*2/3]) // truncated: may be invalid
+			}
+			if format == "srt" || format == "vtt" || format == "ssa" {
+				// the same text in UTF-16 (with a byte-order mark), holding characters outside the BMP: whatever the reader
+				// makes of it, it makes the same of it under every delivery
+				src := []rune(map[string]string{
+					"srt": "1\r\n00:00:01,000 --> 00:00:02,000\r\nHello \U0001F600 world \U00010348\r\n",
+					"vtt": "WEBVTT\r\n\r\nNOTE \U0001F600\r\n\r\n00:00:01.000 --> 00:00:02.000\r\n<v B\U00010348b>Hello \U0001F600 world\r\n",
+					"ssa": "[Script Info]\r\nTitle: Smile \U0001F600\r\n\r\n[Events]\r\nFormat: Marked, Start, End, Text\r\nDialogue: Marked=0,0:00:01.00,0:00:02.00,Hello \U0001F600 world \U00010348\r\n",
+				}[format])
+				for i, order := range []binary.ByteOrder{binary.LittleEndian, binary.BigEndian} {
+					{
+						u := []byte{0xff, 0xfe}
+						if i == 1 {
+							u = []byte{0xfe, 0xff}
+						}
+						for _, v := range utf16.Encode(src) {
+							var w [2]byte
+							order.PutUint16(w[:], v)
+							u = append(u, w[0], w[1])
+						}
+						if len(u) <= 6000 {
+							docs = append(docs, u)
+						}
+					}
+				}
 			}
 			if format == "ttml" && len(docs) > 0 {
 				// something after the root element: a comment, a processing instruction, a second root, junk
@@ -341,6 +384,14 @@ func TestC17(t *testing.T) {
 					fmt.Fprintf(&sb, "Dialogue: Marked=0,0:00:%02d.00,0:00:%02d.50,,,0,0,0,,line %d of the large document\r\n", i%60, i%60, i)
 				}
 				doc = []byte(sb.String())
+			}
+			// the same document with one line longer than a line scanner buffers by default: rejected or not, the same way
+			// under every delivery and from every kind of reader
+			long := append(append(append([]byte(nil), doc[:len(doc)/2]...), bytes.Repeat([]byte("x"), 70000)...), doc[len(doc)/2:]...)
+			for _, seekable := range []bool{true, false} {
+				lc := c17Case{Format: format, Doc: long, Seekable: seekable, Chunks: []int{4096, 1, 65535, 2}}
+				ev.CaseH(true, mix(strHash(format), 70000, b2u(seekable)), "line-over-64KiB", "format-"+format)
+				verdict(t, "C17", "c17", lc, checkC17)
 			}
 			c := c17Case{Format: format, Doc: doc, Seekable: true}
 			for _, base := range []int{4096, 8192, 65536, 131072} {
